@@ -781,3 +781,246 @@ pub fn kind_name(k: &OpKind) -> &'static str {
         OpKind::Status => "status",
     }
 }
+
+
+// ---------------------------------------------------------------- systematic small scopes
+
+/// an operation of a scenario; objects in the callers' hands are named by position
+#[derive(Clone, Debug)]
+pub enum ScOp {
+    Plain(Spec),
+    RetOut(usize),
+    TakeOut(usize),
+}
+
+impl ScOp {
+    fn name(&self) -> String {
+        match self {
+            ScOp::Plain(s) => s.line().replace("start ", "").replace(' ', "_"),
+            ScOp::RetOut(k) => format!("ret_out{k}"),
+            ScOp::TakeOut(k) => format!("take_out{k}"),
+        }
+    }
+    fn resolve(&self, w: &World) -> Option<Spec> {
+        let out = w.out_ids();
+        Some(match self {
+            ScOp::Plain(s) => s.clone(),
+            ScOp::RetOut(k) => Spec::Ret(*out.get(*k)?),
+            ScOp::TakeOut(k) => Spec::Take(*out.get(*k)?),
+        })
+    }
+}
+
+/// the menu: a pool of max_size 2 with one idle object and one checked out
+pub fn scenario_menu() -> Vec<ScOp> {
+    vec![
+        ScOp::Plain(Spec::Get(Tmo::Zero, Tmo::None, Tmo::None)),
+        ScOp::Plain(Spec::Get(Tmo::None, Tmo::None, Tmo::None)),
+        ScOp::RetOut(0),
+        ScOp::TakeOut(0),
+        ScOp::Plain(Spec::Resize(1)),
+        ScOp::Plain(Spec::Resize(3)),
+        ScOp::Plain(Spec::Close),
+        ScOp::Plain(Spec::Retain(vec![false])),
+        ScOp::Plain(Spec::Retain(vec![true])),
+        ScOp::Plain(Spec::Status),
+    ]
+}
+
+/// `resizes`: with the operations that change max_size (resize, close)
+pub fn scenarios(resizes: bool) -> Vec<Vec<ScOp>> {
+    let m: Vec<ScOp> = scenario_menu()
+        .into_iter()
+        .filter(|o| resizes || !matches!(o, ScOp::Plain(Spec::Resize(_)) | ScOp::Plain(Spec::Close)))
+        .collect();
+    let mut v = Vec::new();
+    for a in 0..m.len() {
+        for b in a + 1..m.len() {
+            for c in b + 1..m.len() {
+                v.push(vec![m[a].clone(), m[b].clone(), m[c].clone()]);
+            }
+        }
+    }
+    // two getters racing with a third operation
+    for x in [0usize, 1] {
+        for y in 2..m.len() {
+            v.push(vec![m[x].clone(), m[x].clone(), m[y].clone()]);
+        }
+    }
+    v
+}
+
+/// one schedule: `variant` 0 = every callback succeeds, 1 = `Manager::recycle` fails,
+/// 2 = one pre_recycle and one post_recycle hook, all succeeding
+fn run_schedule(ops: &[ScOp], variant: usize, path: &[usize], budget: usize, resizes: bool) -> (TraceOut, Vec<usize>, Vec<usize>) {
+    let cfg = Cfg {
+        max: 2,
+        lifo: false,
+        pre: if variant == 2 { vec![false] } else { vec![] },
+        postr: if variant == 2 { vec![true] } else { vec![] },
+        postc: vec![],
+        rt: true,
+    };
+    let mut t = TraceOut { lines: vec![cfg.line()], error: None };
+    let mut w = World::new(cfg);
+    let (mut taken, mut widths) = (Vec::new(), Vec::new());
+    macro_rules! bail {
+        () => {{
+            std::mem::forget(w);
+            return (t, taken, widths);
+        }};
+    }
+    t.lines.push("# setup".into());
+    for _ in 0..2 {
+        if !start_and_run_ok(&mut w, Spec::Get(Tmo::None, Tmo::None, Tmo::None), &mut t) {
+            bail!();
+        }
+    }
+    let last_out = *w.out_ids().last().unwrap_or(&0);
+    if !start_and_run_ok(&mut w, Spec::Ret(last_out), &mut t) {
+        bail!();
+    }
+    t.lines.push("# main".into());
+    // starting an operation is a scheduling decision like any other step: an operation may
+    // begin after another one has run to its end
+    let mut pending: Vec<ScOp> = ops.to_vec();
+    let mut mine: Vec<usize> = Vec::new();
+    let mut last: Option<usize> = None;
+    let mut left = budget;
+    #[derive(Clone, Copy, PartialEq)]
+    enum Choice {
+        Step(usize, Outcome),
+        Start(usize),
+    }
+    for _ in 0..600 {
+        // what each running operation would do next (one deterministic outcome per operation)
+        let enabled: Vec<(usize, Outcome)> = mine
+            .iter()
+            .copied()
+            .filter_map(|i| {
+                let op = w.sched.op(i);
+                if op.done {
+                    return None;
+                }
+                let en = w.enabled(i);
+                if en.is_empty() {
+                    return None;
+                }
+                if op.label == "get.acquire" && op.susp {
+                    let woken = w.wakers[i].as_ref().map(|f| f.0.load(std::sync::atomic::Ordering::SeqCst)).unwrap_or(false);
+                    return if woken { Some((i, Outcome::Run)) } else { None };
+                }
+                if en.contains(&Outcome::Run) {
+                    Some((i, Outcome::Run))
+                } else if variant == 1 && op.label == "recycle" {
+                    Some((i, Outcome::Err))
+                } else {
+                    Some((i, Outcome::Ok))
+                }
+            })
+            .collect();
+        let mut all: Vec<Choice> = enabled.iter().map(|(i, oc)| Choice::Step(*i, *oc)).collect();
+        for k in 0..pending.len() {
+            if pending[k].resolve(&w).is_some() {
+                all.push(Choice::Start(k));
+            }
+        }
+        if all.is_empty() {
+            break;
+        }
+        let cur = last.and_then(|l| enabled.iter().find(|e| e.0 == l).copied());
+        let options: Vec<Choice> = match cur {
+            Some((l, oc)) if left == 0 => vec![Choice::Step(l, oc)],
+            _ => all.clone(),
+        };
+        let d = taken.len();
+        let c = path.get(d).copied().unwrap_or(0).min(options.len() - 1);
+        taken.push(c);
+        widths.push(options.len());
+        let choice = options[c];
+        if let Some((l, oc)) = cur {
+            if choice != Choice::Step(l, oc) {
+                left = left.saturating_sub(1);
+            }
+        }
+        match choice {
+            Choice::Step(i, oc) => {
+                last = Some(i);
+                if !do_action(&mut w, &Action::Step(i, oc), &mut t) {
+                    bail!();
+                }
+            }
+            Choice::Start(k) => {
+                let spec = pending.remove(k).resolve(&w).unwrap();
+                if !do_action(&mut w, &Action::Start(spec), &mut t) {
+                    bail!();
+                }
+                let i = w.sched.n_ops() - 1;
+                mine.push(i);
+                last = Some(i);
+            }
+        }
+    }
+    t.lines.push("# drain".into());
+    if !drain(&mut w, &mut t) {
+        bail!();
+    }
+    if !probe(&mut w, &mut t) {
+        bail!();
+    }
+    if resizes && !shrink_probe(&mut w, &mut t) {
+        bail!();
+    }
+    w.finish();
+    (t, taken, widths)
+}
+
+/// like `start_and_run`, but every callback of the operation succeeds (setup of a scenario)
+fn start_and_run_ok(w: &mut World, s: Spec, t: &mut TraceOut) -> bool {
+    if !do_action(w, &Action::Start(s), t) {
+        return false;
+    }
+    let i = w.sched.n_ops() - 1;
+    for _ in 0..100 {
+        if w.sched.op(i).done {
+            return true;
+        }
+        let en = w.enabled(i);
+        if en.is_empty() {
+            t.error = Some(format!("DEADLOCK: op {} not enabled during the setup", i));
+            return false;
+        }
+        let oc = if en.contains(&Outcome::Run) { Outcome::Run } else { Outcome::Ok };
+        if !do_action(w, &Action::Step(i, oc), t) {
+            return false;
+        }
+    }
+    true
+}
+
+/// every schedule of the scenario with at most `budget` preemptions (depth-first), at most `limit`
+pub fn exhaust(ops: &[ScOp], variant: usize, budget: usize, limit: usize, resizes: bool, mut emit: impl FnMut(&TraceOut, &str)) -> usize {
+    let name: Vec<String> = ops.iter().map(|o| o.name()).collect();
+    let mut path: Vec<usize> = Vec::new();
+    let mut n = 0usize;
+    loop {
+        let (t, taken, widths) = run_schedule(ops, variant, &path, budget, resizes);
+        n += 1;
+        emit(&t, &format!("scenario={} variant={} budget={} schedule={}", name.join("+"), variant, budget, n));
+        if t.error.as_deref().map(|e| e.starts_with("HANG")).unwrap_or(false) || n >= limit {
+            return n;
+        }
+        let mut d = taken.len();
+        loop {
+            if d == 0 {
+                return n;
+            }
+            d -= 1;
+            if taken[d] + 1 < widths[d] {
+                path = taken[..d].to_vec();
+                path.push(taken[d] + 1);
+                break;
+            }
+        }
+    }
+}
